@@ -127,7 +127,7 @@ def run_impl(case, want_traffic=False):
             db = os.path.join(d, 'db.csv')
             os.makedirs(os.path.join(d, 'cwdg'))
             os.chdir(os.path.join(d, 'cwdg'))
-            rc = rfigc.main(['-i', pristine, '-d', db, '-g', '-f', '--silent'])
+            rc = rfigc.main(['-i', pristine, '-d', db, '-g', '-f', '--silent'] + list(case.get('gen_extra', [])))
             if rc != 0:
                 raise RuntimeError('rfigc -g failed')
             if case.get('db_ops'):
@@ -532,6 +532,11 @@ def corpus():
         # nested file whose base name is also a top-level row
         cs.append(mk(3, {'n.txt': [good2] * 3, 'sub/n.txt': [x, good, good]}, {'n.txt': good2, 'sub/n.txt': good}, rep))
         cs.append(mk(3, {'n.txt': [good2] * 3, 'sub/n.txt': [good2, good, good]}, {'n.txt': good2, 'sub/n.txt': good}, rep))
+        # a database generated with --skip_hash records '0' in both hash columns: nothing matches such a row, so no replica may be
+        # taken as already correct and no path may be reported hash-correct on its strength
+        c_ = mk(3, {'sub/n.txt': [x, good, good], 't.txt': [good2] * 3}, {'sub/n.txt': good, 't.txt': good2}, rep)
+        c_['gen_extra'] = ['--skip_hash']
+        cs.append(c_)
         # only the last replica is intact, 5 replicas
         cs.append(mk(5, {'a/b/c/deep.bin': [x, x, b'', x + b'1', good]}, {'a/b/c/deep.bin': good}, rep))
     return cs
